@@ -126,6 +126,92 @@ Proof.
     rewrite (argmax_mask_none s f m E a) in Hsa by lia. discriminate.
 Qed.
 
+(* ---------- np.argmax is the FIRST maximum; the literal where-form of the repaired line ---------- *)
+Lemma le_lt_trans a b c : a <=! b -> oltb K b c = true -> oltb K a c = true.
+Proof.
+  intros H1 H2. rewrite (of_ltb K OFK) in *. destruct (oleb K c a) eqn:E; auto.
+  rewrite (of_trans K OFK c a b E H1) in H2. discriminate.
+Qed.
+Lemma lt_le_trans a b c : oltb K a b = true -> b <=! c -> oltb K a c = true.
+Proof.
+  intros H1 H2. rewrite (of_ltb K OFK) in *. destruct (oleb K c a) eqn:E; auto.
+  rewrite (of_trans K OFK b c a H2 E) in H1. discriminate.
+Qed.
+Lemma lt_not_le a b : oltb K a b = true -> b <=! a -> False.
+Proof. rewrite (of_ltb K OFK). intros H1 H2. rewrite H2 in H1. discriminate. Qed.
+Lemma neg1_lt0 : oltb K (- (1)) 0 = true.
+Proof.
+  rewrite (of_ltb K OFK). destruct (oleb K 0 (- (1))) eqn:E; auto. exfalso.
+  apply (of_add K OFK _ _ 1) in E.
+  assert (H1 : 1 <=! 0) by (eapply le_rw; [| |exact E]; ring).
+  apply (of_01 K OFK). apply (of_antisym K OFK); [apply one_nonneg | exact H1].
+Qed.
+
+(* every position before the arg-max carries a strictly smaller value *)
+Lemma argmaxf_first f n a : (a < argmaxf K f n)%nat -> oltb K (f a) (f (argmaxf K f n)) = true.
+Proof.
+  induction n as [|m IH]; cbn [argmaxf]; [lia|].
+  destruct (oltb K (f (argmaxf K f m)) (f m)) eqn:E; intros Ha.
+  - eapply le_lt_trans; [apply (argmaxf_max K OFK f m a Ha) | exact E].
+  - apply IH; exact Ha.
+Qed.
+(* ... and this characterises it: a maximum that is strictly above everything before it *)
+Lemma argmaxf_char f n i : (i < n)%nat -> (forall a, (a < n)%nat -> f a <=! f i) ->
+  (forall a, (a < i)%nat -> oltb K (f a) (f i) = true) -> argmaxf K f n = i.
+Proof.
+  intros Hi Hmax Hfirst.
+  assert (Hj : (argmaxf K f n < n)%nat) by (apply (argmaxf_lt K); lia).
+  destruct (Nat.lt_trichotomy (argmaxf K f n) i) as [H|[H|H]]; auto; exfalso.
+  - apply (lt_not_le _ _ (Hfirst _ H)). apply (argmaxf_max K OFK); exact Hi.
+  - apply (lt_not_le _ _ (argmaxf_first f n i H)). apply Hmax; exact Hj.
+Qed.
+
+Lemma argmax_mask_first s f n i : argmax_mask K s f n = Some i ->
+  forall a, (a < i)%nat -> s a = true -> oltb K (f a) (f i) = true.
+Proof.
+  revert i; induction n as [|m IH]; intros i H a Ha Hsa; [discriminate|]. cbn [argmax_mask] in H.
+  destruct (argmax_mask K s f m) as [b|] eqn:E.
+  - destruct (s m && oltb K (f b) (f m)) eqn:C; injection H as <-.
+    + apply andb_true_iff in C as (_ & C). destruct (argmax_mask_some _ _ _ _ E) as (Hb & _ & Hmax).
+      eapply le_lt_trans; [apply Hmax; auto | exact C].
+    + apply (IH b eq_refl); auto.
+  - destruct (s m) eqn:Es; [|discriminate]. injection H as <-.
+    rewrite (argmax_mask_none s f m E a Ha) in Hsa. discriminate.
+Qed.
+
+(* np.argmax(np.where(S > 0, F, -1.)) IS the first maximum of F among the rows with S > 0, provided such a row
+   exists and every such row has F > -1 *)
+Lemma argmax_where_mask s f n i : argmax_mask K s f n = Some i ->
+  (forall a, (a < n)%nat -> s a = true -> oltb K (- (1)) (f a) = true) ->
+  argmaxf K (where_mask K s f) n = i.
+Proof.
+  intros E Hpos. destruct (argmax_mask_some _ _ _ _ E) as (Hi & Hsi & Hmax).
+  assert (Hgi : where_mask K s f i = f i) by (unfold where_mask; now rewrite Hsi).
+  apply argmaxf_char; auto.
+  - intros a Ha. rewrite Hgi. unfold where_mask. destruct (s a) eqn:Es; [apply Hmax; auto|].
+    apply (oltb_true_le K OFK). apply Hpos; auto.
+  - intros a Ha. rewrite Hgi. unfold where_mask. destruct (s a) eqn:Es.
+    + apply (argmax_mask_first s f n i E); auto.
+    + apply Hpos; auto.
+Qed.
+
+(* the pinned line np.argmax(F) gives the same row whenever its residual is positive (selected rows carry F = 0) *)
+Lemma argmaxf_where_agree s f n : (1 <= n)%nat -> (forall a, (a < n)%nat -> s a = false -> f a = 0) ->
+  oltb K 0 (f (argmaxf K f n)) = true -> argmaxf K (where_mask K s f) n = argmaxf K f n.
+Proof.
+  intros Hn Hz Hpos. set (i := argmaxf K f n) in *.
+  assert (Hi : (i < n)%nat) by (apply (argmaxf_lt K); lia).
+  assert (Hsi : s i = true).
+  { destruct (s i) eqn:E; auto. rewrite (Hz i Hi E), ltb_irrefl in Hpos. discriminate. }
+  assert (Hgi : where_mask K s f i = f i) by (unfold where_mask; now rewrite Hsi).
+  assert (Hle : forall a, (a < n)%nat -> where_mask K s f a <=! f a).
+  { intros a Ha. unfold where_mask. destruct (s a) eqn:E; [apply (ole_refl K OFK)|].
+    rewrite (Hz a Ha E). apply (oltb_true_le K OFK), neg1_lt0. }
+  apply argmaxf_char; auto.
+  - intros a Ha. rewrite Hgi. eapply (of_trans K OFK); [apply Hle; auto | apply (argmaxf_max K OFK); auto].
+  - intros a Ha. rewrite Hgi. eapply le_lt_trans; [apply Hle; lia | apply argmaxf_first; auto].
+Qed.
+
 (* ---------- the invariant of the rect loop ---------- *)
 Definition rect_inv (A : mat T) (I : list nat) (Sm : list bool) (B : mat T) (F : list T) : Prop :=
   mr B = mr A /\ mc B = length I /\ NoDup I /\
@@ -202,7 +288,7 @@ Proof.
     rewrite Hl. ring.
 Qed.
 
-(* ---------- the loop (repaired arg-max) ---------- *)
+(* ---------- the loop of the code (masked arg-max) ---------- *)
 Lemma exists_unselected A I Sm B F : rect_inv A I Sm B F -> (length I < mr A)%nat ->
   argmax_mask K (fun a => nth a Sm false) (fun a => nth a F 0) (mr A) <> None.
 Proof.
@@ -233,6 +319,10 @@ Proof.
   unfold rect_argmax. rewrite Hr.
   pose proof (exists_unselected A I Sm B F HInv ltac:(lia)) as HE.
   destruct (argmax_mask K (fun a => nth a Sm false) (fun a => nth a F 0) (mr A)) as [i|] eqn:E; [|congruence].
+  assert (HFpos : forall a, (a < mr A)%nat -> nth a Sm false = true -> oltb K (- (1)) (nth a F 0) = true).
+  { intros a Ha HSa. rewrite HF, HSa by auto. eapply lt_le_trans; [apply neg1_lt0|].
+    unfold rownorm2. apply bsum_nonneg. intros; apply sq_nonneg. }
+  rewrite (argmax_where_mask _ _ _ i E HFpos).
   destruct (argmax_mask_some _ _ _ _ E) as (Hi & HSi & Hmax). cbn beta in HSi, Hmax.
   destruct ((r_min <=? length I)%nat && oleb K (nth i F 0) e2) eqn:ET.
   - apply andb_true_iff in ET as (E1 & E2). apply Nat.leb_le in E1.
@@ -476,12 +566,6 @@ Notation mg := (mget K).
 Notation "a <=! b" := (oleb K a b = true) (at level 70).
 Hypothesis OFK : ordfield K.
 
-Lemma le_lt_trans a b c : a <=! b -> oltb K b c = true -> oltb K a c = true.
-Proof.
-  intros H1 H2. rewrite (of_ltb K OFK) in *. destruct (oleb K c a) eqn:E; auto.
-  rewrite (of_trans K OFK c a b E H1) in H2. discriminate.
-Qed.
-
 (* if the overall first maximum is positive and selected rows carry 0, it is the first maximum among the
    unselected rows *)
 Lemma argmax_agree s f n : (1 <= n)%nat -> (forall a, (a < n)%nat -> s a = false -> f a = 0) ->
@@ -507,7 +591,7 @@ Proof.
   - rewrite (SEL (S m) ltac:(lia) Hpos). cbn [andb].
     destruct (argmax_mask K s f (S m)) as [b'|] eqn:E; [|reflexivity].
     destruct (argmax_mask_some K OFK _ _ _ _ E) as (Hb' & _ & _).
-    rewrite (le_lt_trans (f b') (f b) (f (S m))); auto. apply (argmaxf_max K OFK). exact Hb'.
+    rewrite (le_lt_trans K OFK (f b') (f b) (f (S m))); auto. apply (argmaxf_max K OFK). exact Hb'.
   - rewrite IH; auto; try lia. now rewrite El, andb_false_r.
 Qed.
 
@@ -535,9 +619,7 @@ Proof.
   set (n := mr B) in *.
   set (ip := rect_argmax K false Sm F n) in *. set (im := rect_argmax K true Sm F n).
   assert (Hip : ip = argmaxf K (fun a => nth a F 0) n) by reflexivity.
-  assert (Him : (im < n)%nat).
-  { unfold im, rect_argmax. destruct (argmax_mask K _ _ n) as [i|] eqn:E; [|lia].
-    apply (argmax_mask_some K OFK) in E. tauto. }
+  assert (Him : (im < n)%nat) by (unfold im, rect_argmax; apply (argmaxf_lt K); lia).
   destruct (Nat.leb_spec r_min (length I)) as [Hk|Hk]; cbn [andb] in *.
   - destruct (oleb K (nth ip F 0) e2) eqn:Et.
     + (* the pinned test passes: the masked maximum is not larger *)
@@ -546,13 +628,13 @@ Proof.
       rewrite (of_trans K OFK _ _ _ Hle Et). reflexivity.
     + destruct Hpos as (Hp & Hrest).
       assert (E : im = ip).
-      { unfold im, rect_argmax. rewrite (argmax_agree (fun a => nth a Sm false) (fun a => nth a F 0) n); auto. }
+      { unfold im, rect_argmax. rewrite Hip. apply (argmaxf_where_agree K OFK); auto; now rewrite <- Hip. }
       rewrite E, Et. apply IH; auto.
       * unfold mask_off. rewrite tab_length. exact HLS.
       * cbn [rect_update mkmat mr]. intros a Ha. unfold rect_F. rewrite nth_tab by auto. now intros ->.
   - destruct Hpos as (Hp & Hrest).
     assert (E : im = ip).
-    { unfold im, rect_argmax. rewrite (argmax_agree (fun a => nth a Sm false) (fun a => nth a F 0) n); auto. }
+    { unfold im, rect_argmax. rewrite Hip. apply (argmaxf_where_agree K OFK); auto; now rewrite <- Hip. }
     rewrite E. apply IH; auto.
     + unfold mask_off. rewrite tab_length. exact HLS.
     + cbn [rect_update mkmat mr]. intros a Ha. unfold rect_F. rewrite nth_tab by auto. now intros ->.
